@@ -194,6 +194,26 @@ pub fn session(text: &str, env: Env, script: Option<&str>, fuel: u64) -> Result<
     })
 }
 
+/// Assemble `text` and load it the way `lace run file.asm` does (`RunEnvironment::try_from`);
+/// returns the machine right after loading.
+pub fn load_source(text: &str, env: Env) -> Result<Result<Machine, String>, Stopped> {
+    case(env, || {
+        let holder = StaticSource::new(text.to_string());
+        let air = match assemble_air(holder.src()) {
+            Ok(a) => a,
+            Err(e) => return Err(format!("assembler: {}", e.message)),
+        };
+        let r = match guard(|| RunEnvironment::try_from(air, None)) {
+            Ok(Ok(e)) => Ok(snapshot(&e)),
+            Ok(Err(e)) => Err(format!("{e}")),
+            Err(s) => Err(s.short()),
+        };
+        let mut holder = holder;
+        holder.reclaim();
+        r
+    })
+}
+
 /// Load a raw image (origin word first) and run it without a debugger.
 pub fn run_image(image: &[u16], env: Env, fuel: u64) -> Result<Result<Obs, Ended>, Stopped> {
     case(env, || {
